@@ -854,6 +854,29 @@ def collect_guards(tree, eng, prog):
             cn = g.stmt_of_expr(s.node)
             if cn is None:
                 continue
+            # `fn = lib.A if c else lib.B ... fn(args)`: the statements that bind each callee to the local; a guard on
+            # every path to the binding of a callee is a guard of that callee's call
+            bind_nodes = {}
+            if s.how == "variable":
+                for nd in g.nodes:
+                    a_ = nd.ast
+                    if nd.kind == "stmt" and isinstance(a_, ast.Assign) and len(a_.targets) == 1 \
+                            and isinstance(a_.targets[0], ast.Name) and pf.src(a_.targets[0]) == pf.src(s.node.func):
+                        for x in ast.walk(a_.value):
+                            nm_ = None
+                            if isinstance(x, ast.Attribute):
+                                nm_ = x.attr
+                            elif isinstance(x, ast.Call) and pf.call_name(x) == "getattr" and len(x.args) >= 2 \
+                                    and isinstance(x.args[1], ast.Constant):
+                                nm_ = x.args[1].value
+                            if nm_ in s.callees:
+                                bind_nodes.setdefault(nm_, set()).add(nd.id)
+
+            def sure(ids, callee):
+                if fg.guaranteed(ids, [cn.id]):
+                    return True
+                bn = bind_nodes.get(callee)
+                return bool(bn) and fg.guaranteed(ids, sorted(bn))
             per_callee = {}
             for c, al in s.pairs:
                 if c is None or al is None:
@@ -867,14 +890,14 @@ def collect_guards(tree, eng, prog):
                         subj = src.split(".ctypes")[0]
                         passed_any.add(subj)
                         for (sj, kind), ids in pairs.items():
-                            if sj == subj and fg.guaranteed(ids, [cn.id]):
+                            if sj == subj and sure(ids, callee):
                                 sigs.add("c:%s#%d:%s" % (callee, i, kind))
                     m_ = _CINT.match(src)
                     if m_:
                         names.setdefault(m_.group(1), []).append("%s#%d" % (callee, i))
                 if names:
                     for ids, canon in _relation_sets(fg, names):
-                        if fg.guaranteed(ids, [cn.id]):
+                        if sure(ids, callee):
                             sigs.add("rel:" + canon)
             for callee, sigs in per_callee.items():
                 call_guards.setdefault(rel, {}).setdefault(callee, []).append(sigs)
@@ -2084,9 +2107,15 @@ def rule_alloc_assert(chk, eng):
                     and isinstance(st.value, ast.Call) and pf.call_name(st.value) in ("np.zeros", "np.empty", "np.ones") \
                     and st.value.args and isinstance(st.value.args[0], (ast.Tuple, ast.List)):
                 allocs.append((st.targets[0].id, st, st.value.args[0].elts))
+            atoms_ = []
             if isinstance(st, ast.Assert):
-                for e, pos in guards.conjuncts(st.test, True):
-                    if isinstance(e, ast.Compare) and len(e.ops) == 1 and isinstance(e.ops[0], ast.Eq) and pos:
+                atoms_ = guards.conjuncts(st.test, True)
+            elif isinstance(st, ast.If) and cfgm._raises(st.body) and not st.orelse:
+                atoms_ = guards.conjuncts(st.test, False)  # if not cond: raise  ==  assert cond
+            if atoms_:
+                for e, pos in atoms_:
+                    if isinstance(e, ast.Compare) and len(e.ops) == 1 and (
+                            isinstance(e.ops[0], ast.Eq) and pos or isinstance(e.ops[0], ast.NotEq) and not pos):
                         for l, r in ((e.left, e.comparators[0]), (e.comparators[0], e.left)):
                             if isinstance(l, ast.Attribute) and l.attr == "shape" and isinstance(l.value, ast.Name) \
                                     and isinstance(r, (ast.Tuple, ast.List)):
